@@ -39,6 +39,32 @@ def run(ctx, chk):
     r4(ctx, chk)
     r5(ctx, chk, "C08.R5")
     r6(ctx, chk, "C08.R6")
+    r7(ctx, chk, "C08.R7")
+
+
+def r7(ctx, chk, rule):
+    """'current' means the caller's reference date: the day comes from self.now and the month from settings.RELATIVE_BASE, so
+    self.now must BE the given RELATIVE_BASE (no zone conversion, no truncation); the clock is only the fallback for a missing one"""
+    cls = ctx.ix.cls("dateparser.parser:_parser")
+    n = 0
+    for f in [x for x in ctx.ix.funcs.values() if x.key.startswith(cls.key + ".")]:
+        for st in iter_own_nodes(f.node):
+            if not (isinstance(st, ast.Assign) and any(ast.unparse(t) == "self.now" for t in st.targets)):
+                continue
+            n += 1
+            v = " ".join(ast.unparse(st.value).split())
+            from ..core.ctx import conjuncts, enclosing_tests
+            facts = [(" ".join(ast.unparse(a).split()), p) for t, pol in enclosing_tests(f.node, st) for a, p in conjuncts(t, pol)]
+            if v in ("self.settings.RELATIVE_BASE", "settings.RELATIVE_BASE", "None"):
+                ok, why = True, ""
+            elif ("self.now", False) in facts or ("self.settings.RELATIVE_BASE", False) in facts:
+                ok, why = "RELATIVE_BASE" not in v and "self.now" not in v, "fallback value %s" % v
+            else:
+                ok, why = False, "self.now = %s under %s" % (v, facts)
+            chk.ob(rule, "%s: self.now is the caller's RELATIVE_BASE as given (the clock only when none is given)" % f.qual, ok,
+                   "%s: the reference used for the 'current' day is no longer the date the caller supplied (the 'current' month still is)" % why,
+                   key={"function": f.key, "construct": "self.now source " + v[:50]}, file=f.file, function=f.qual, line=st.lineno)
+    chk.floor(rule, n, 2, "assignments to self.now in the absolute parser")
 
 
 def r6(ctx, chk, rule):
